@@ -11,6 +11,15 @@ register('C05', 'complete enumeration of the rule tables against closed-form mom
          'returned doubles); exploration level with exhaustive=true, no proof claimed about mpmath.',
          'mpmath at 80 digits; closed-form moments; advertised class read from the docstrings', 'DESIGN.md 3/C05')
 
+register('C02', 'bounded exhaustive BFS + Hypothesis operation histories in lock-step with an exact dyadic-box reference model',
+         'All bisection sequences to depth 4 (quick) / 5 (thorough) on six small initial meshes, every distinct state compared with the model; '
+         'plus generated histories of all operation kinds on float grids and every curve. Exploration: exhaustive inside the bound, sampled beyond it.',
+         'reference model vlib/meshmodel.py (geometric neighbours + forced-repair closure); marking/grading judged by validity only here', 'DESIGN.md 3/C02, 2.2')
+register('C10', 'same BFS + histories; per-edge neighbour sets compared with the geometric neighbour rule of the reference model',
+         'Every (leaf, edge) of every explored state: reported neighbours == leaves sharing a positive-length piece of the edge (seam identified), '
+         'symmetry, <= 2, flags. Exhaustive inside the BFS bound, sampled beyond.',
+         'geometric rule evaluated on structural keys; agreement of keys and coordinates is C02', 'DESIGN.md 3/C10')
+
 NOT_YET = {}
 def main():
     props = [json.loads(l)['id'] for l in open(os.path.join(V, 'properties.jsonl'))]
